@@ -1,7 +1,9 @@
 ------------------------------ MODULE Gen_Pos ------------------------------
 (***************************************************************************)
 (* C13 universe: P leading lines of up to 2 characters of any class, up to *)
-(* MaxPrefix characters of any class before the link, LF or CRLF.  Every   *)
+(* MaxPrefix characters of any class before the link, line endings LF,     *)
+(* CRLF, or mixed (CRLF up to the link line and LF after, or the other way *)
+(* round: a pasted block in a file of the other convention).  Every        *)
 (* case carries the truth computed by Pos.tla: which (line, character)     *)
 (* positions lie inside the link, the range of its url, and the lines of   *)
 (* the heading, the reference and the list item.                           *)
@@ -13,19 +15,19 @@ CONSTANTS MaxLead, MaxPrefix
 Cls == {"a", "e", "j", "x"}
 Strs(n) == UNION {[1..m -> Cls] : m \in 0..n}
 
-VARIABLES lead, prefix, suffix, crlf, done
-vars == <<lead, prefix, suffix, crlf, done>>
-Init == lead = <<>> /\ prefix = <<>> /\ suffix = <<>> /\ crlf = FALSE /\ done = FALSE
+VARIABLES lead, prefix, suffix, crlf, ending, done
+vars == <<lead, prefix, suffix, crlf, ending, done>>
+Init == lead = <<>> /\ prefix = <<>> /\ suffix = <<>> /\ crlf = FALSE /\ ending = "lf" /\ done = FALSE
 
 \* leading lines all share one content (their content only matters through its bytes)
 Next == /\ ~done
-        /\ \E p \in 0..MaxLead, c \in Strs(1), pf \in Strs(MaxPrefix), sf \in Strs(1), nl \in BOOLEAN :
+        /\ \E p \in 0..MaxLead, c \in Strs(1), pf \in Strs(MaxPrefix), sf \in Strs(1), nl \in {"lf", "crlf", "crlf-lf", "lf-crlf"} :
              /\ lead' = [i \in 1..p |-> <<"a">> \o c]
-             /\ prefix' = pf /\ suffix' = sf /\ crlf' = nl /\ done' = TRUE
+             /\ prefix' = pf /\ suffix' = sf /\ crlf' = (nl = "crlf") /\ ending' = nl /\ done' = TRUE
 Spec == Init /\ [][Next]_vars
 
 P == Len(lead)
-Case == [lead |-> lead, prefix |-> prefix, suffix |-> suffix, crlf |-> crlf,
+Case == [lead |-> lead, prefix |-> prefix, suffix |-> suffix, crlf |-> crlf, ending |-> ending,
          head_line |-> HeadLine(P), link_line |-> LinkLine(P), ref_line |-> RefLine(P), item_line |-> ItemLine(P),
          link_start |-> LinkStart(prefix), link_end |-> LinkEnd(prefix), url_start |-> UrlStart(prefix), url_end |-> UrlEnd(prefix),
          last_line |-> LastLine(P)]
